@@ -343,6 +343,23 @@ func (b *DirectoryBackend) Put(path string, data []byte) error {
 	return nil
 }
 
+// Remove data at given path.
+func (b *DirectoryBackend) Remove(path string) error {
+	fullPath, err := b.osPath(path)
+	if err != nil {
+		return err
+	}
+	err = os.Remove(fullPath)
+	if err != nil {
+		b.log.WithError(err).WithField("path", fullPath).Debug("failed to remove key file")
+		if os.IsNotExist(err) {
+			err = api.ErrNotExist
+		}
+		return err
+	}
+	return nil
+}
+
 // ListAll enumerates all paths currently stored.
 // The paths are returned in lexicographical order.
 func (b *DirectoryBackend) ListAll() ([]string, error) {
